@@ -36,6 +36,10 @@ def elem_access(ptr):
         base = t[1]
         if base[0] == "addr":
             return ("at", base[1], None, None, ()), t[2]
+        sb = strip_ref(base)
+        if sb[0] == "at":
+            # slice[i] on `&mut *vec` / `vec.as_mut_slice()`: an element of the vector
+            return sb, t[2]
     if t[0] == "field" and t[2] == "0" and t[1][0] == "dc" and t[1][2] == "Some":
         # the reference inside Some(..) returned by get(i) / get_mut(i)
         g = t[1][1]
@@ -488,6 +492,16 @@ def literal_of(crate, an, S):
     return None, None
 
 
+def literal_home(an, S):
+    """region of the memory local the struct literal of S is stored into (`let mut x = Self { .. }` that is then
+    completed through `&mut x`), or None"""
+    for ev in an.events:
+        if ev["k"] == "store" and ev["val"][0] == "agg" and ev["val"][1] == "adt" and ev["val"][2][0] == S \
+                and ev["region"].startswith("L") and ev["region"][1:].isdigit():
+            return ev["region"]
+    return None
+
+
 def local_region_of_value(t):
     """'L<n>' when the term is the (possibly opaque) value of a memory local"""
     if t[0] == "mem" and t[3] is None and t[1].startswith("L"):
@@ -560,7 +574,7 @@ def rule_schema_bfs(crate, prop, tier):
                     "(%s)" % ", ".join(a[0] for a in extra[:3]), pu["span"])
             nbody = an.cfg.loops.get(an.cfg.loop_of(nl["ev"]["b"]), set())
             sts = [ev for ev, i in stores_to(tr, M, v) if const_is(ev["val"], 1) and
-                   (same_region(an, ev["b"], pu["b"]) or (ev["b"] in nbody and an.cfg.dominates(ev["b"], pu["b"])))]
+                   (same_region(an, ev["b"], pu["b"]) or (ev["b"] in nbody and feasibly_dominates(an, fx, ev["b"], pu["b"])))]
             o.check(bool(sts), tr, "B2-mark-with-push", "a vertex is enqueued without being marked visited on the same path "
                     "(it can be enqueued again)", pu["span"])
             if nm == "BfsDist":
@@ -596,6 +610,9 @@ def rule_schema_bfs(crate, prop, tier):
                 Wn = tr.Wfield
                 Mn = marks[0]
                 qL = sc.reg(local_region_of_value(lit[Wn]))
+                home = literal_home(can, S) if sc.an is can else None
+                if qL is None and home is not None:
+                    qL = home + "." + Wn        # the literal is built first and seeded through `&mut` afterwards
                 pushes = [ev for ev in sc.an.events if ev["k"] == "call" and ev["key"] in PUSH_KEYS and ev["args"]
                           and recv_region(sc.an, ev["args"][0]) == qL and qL is not None]
                 seeded = False
@@ -626,6 +643,8 @@ def rule_schema_bfs(crate, prop, tier):
                         if sc.an is can and can.term_of.get((c[1], c[3])) == mv:
                             marked = True
                         if mL is not None and c[1] == sc.reg(mL):
+                            marked = True
+                        if home is not None and c[1] == home + "." + Mn and ev["b"] in sc.body:
                             marked = True
                 o.check(marked, tr, "B5-seed-mark", "sources are not marked visited by `new` (a source can be yielded twice)")
                 o.check(sc.complete, tr, "B5-all-sources", "the loop over the sources can end early")
@@ -790,8 +809,45 @@ def extra_conditions(tr, nl, b, allowed):
             continue
         if allowed(a):
             continue
+        if a[0] in ("true", "false") and _const_bool_join(an, a[1]):
+            # the verdict of an inlined helper (`fn mark(..) -> bool`): a join of constants, decided by the primary tests
+            # that are facts of their own
+            continue
         out.append(a)
     return out
+
+
+def _const_bool_join(an, t):
+    if not (t[0] == "phi" and len(t) == 3 and t[2].startswith("v")):
+        return False
+    ins = an.phi_inputs(t[1], t[2])
+    return bool(ins) and all(x[0] == "const" and x[1] == "bool" for x in ins)
+
+
+def feasibly_dominates(an, fx, s_block, target, start=0):
+    """every path from `start` to `target` that is consistent with what is known at `target` passes through s_block:
+    edges whose facts contradict every world at the target are not followed"""
+    from .facts import contradictory
+    if an.cfg.dominates(s_block, target):
+        return True
+    tws = [set(w) for w in fx.worlds_at(target)]
+    if not tws:
+        return False
+    seen = set()
+    work = [start]
+    while work:
+        x = work.pop()
+        if x in seen or x == s_block:
+            continue
+        seen.add(x)
+        if x == target:
+            return False
+        for tg, lab in an.cfg.succ[x]:
+            atoms = set(fx.close(fx.edge_atoms(x, lab, tg)))
+            if atoms and all(contradictory(w | atoms) for w in tws):
+                continue
+            work.append(tg)
+    return True
 
 
 def writes_into_local(crate, fnpath, L):
@@ -921,7 +977,7 @@ def rule_schema_dfs(crate, prop, tier):
             o.check(good, tr, "D2-yield-popped", "the yielded item is not the popped one", sp)
             o.check(world_has_load(fx, b, False, M, u), tr, "D2-unvisited-test",
                     "a vertex is yielded without a dominating `not visited` test (it can be yielded twice)", sp)
-            sts = [ev for ev, i in stores_to(tr, M, u) if const_is(ev["val"], 1) and an.cfg.dominates(ev["b"], b)]
+            sts = [ev for ev, i in stores_to(tr, M, u) if const_is(ev["val"], 1) and feasibly_dominates(an, fx, ev["b"], b)]
             o.check(bool(sts), tr, "D2-mark-before-yield", "a vertex is yielded without being marked visited", sp)
             if tr.nloops and not piped:
                 nl_ = tr.nloops[0]
@@ -1203,6 +1259,9 @@ def rule_schema_dj(crate, prop, tier):
                 Dn = dists[0]
                 hL = local_region_of_value(lit[Wn])
                 dv = lit[Dn]
+                home = literal_home(can, S)
+                if hL is None and home is not None:
+                    hL = home + "." + Wn
                 o.check(dv[0] == "call" and dv[1] == "alloc::vec::from_elem" and const_is(dv[3][0], 18446744073709551615),
                         tr, "J6-fill-max", "`new` does not pre-fill dist[] with usize::MAX")
                 seeded = False
@@ -1218,6 +1277,8 @@ def rule_schema_dj(crate, prop, tier):
                     if ev["k"] == "store":
                         c, i = store_elem(ev)
                         if i == item and const_is(ev["val"], 0) and c and c[0] == "at" and can.term_of.get((c[1], c[3])) == dv:
+                            zero = True
+                        if i == item and const_is(ev["val"], 0) and c and c[0] == "at" and home is not None and c[1] == home + "." + Dn:
                             zero = True
                 o.check(zero, tr, "J6-seed-dist-0", "dist[source] is not set to 0 by `new`")
                 o.check(complete_scan(can, cfx, lev), tr, "J6-all-sources", "the loop over the sources can end early")
